@@ -108,6 +108,11 @@ func registerFS(in *Interp) {
 		if in.fsFault("TempFile " + dir) {
 			return tuple{nilFile, in.pathErr(fr, "open", dir, "permission denied")}
 		}
+		// a file name is at most 255 bytes: the pattern plus the random decimal suffix of
+		// os.CreateTemp (1-10 digits; fewer than 3 with probability < 1e-6) must fit
+		if len(strings.ReplaceAll(pat, "*", ""))+3 > 255 {
+			return tuple{nilFile, in.pathErr(fr, "open", filepath.Join(dir, pat), "file name too long")}
+		}
 		st := in.fs()
 		st.tmpN++
 		p := clean(filepath.Join(dir, fmt.Sprintf("%s%d.tmp", strings.ReplaceAll(pat, "*", ""), st.tmpN)))
